@@ -41,6 +41,13 @@ PROP = {  # subject prefix -> (properties, what failed before the repair)
  "monotonic-run detection skips empty": ("C02 C03", "a chunked key with an empty chunk produced garbage labels (read past the end of the empty chunk)"),
  "pyarrow timestamp keys keep": ("C03 C12", "pyarrow timestamp ChunkedArray keys raised TypeError in monotonic factorization"),
  "cumulative counts are int64": ("C03 C08", "cumcount on monotonic (uint32-coded) keys returned 2^64-1 instead of -1 at masked rows"),
+ "apply(transform=True) and multi-column apply": ("C07 C16", "median(transform=True) put group results at the wrong rows when labels were unsorted or a group was masked out; multi-column apply mis-sliced results"),
+ "mean(transform=True) broadcasts": ("C07", "mean(transform=True) returned the group sum"),
+ "values Arrow cannot type-infer": ("C03 C12", "a pandas string key Series starting with a missing value raised ArrowInvalid on the chunked route"),
+ "dictionary indices are widened": ("C02 C12", "follow-up of the Arrow null-code repair: unsigned dictionary indices"),
+ "apply with every key null and a mask": ("C07 C16", "median with a mask and no group raised IndexError; size(transform=True) lost the keys' index"),
+ "var/std/median with transform=True return polars": ("C07", "var/std(transform=True) of polars values raised ValueError; median(transform=True) returned pandas for polars input"),
+ "std(transform=True) of a polars frame": ("C07", "std(transform=True) of a polars DataFrame raised TypeError"),
  "apply returns an empty result": ("C05 C09", "median/apply with nothing selected raised IndexError (was known finding K2)"),
 }
 log = subprocess.run(["git", "-C", "/repo", "log", "--format=%h %s", "be63ad5..HEAD"], stdout=subprocess.PIPE).stdout.decode().splitlines()
